@@ -364,6 +364,52 @@ def I128.unmarshal (recv : I128) (s : List Char) : I128 × Bool :=
   | some v => (v, true)
   | none => (recv, false)
 
+/-! ## fmt.Scanner: `Scan` reads one blank-delimited token and passes `scanText token verb` to `FromString` -/
+
+/-- `len(text) > 1 && text[0] == '0' && strings.ContainsRune("bBoOxX", rune(text[1]))` -/
+def isBasePrefixed : List Char → Bool
+  | '0' :: c :: _ => c = 'b' ∨ c = 'B' ∨ c = 'o' ∨ c = 'O' ∨ c = 'x' ∨ c = 'X'
+  | _ => false
+
+/-- `strings.TrimLeft(text, "0")` -/
+def trimZeros : List Char → List Char
+  | c :: t => if c = '0' then trimZeros t else c :: t
+  | [] => []
+
+/-- the base prefix a scan verb stands for; `none` = the verb leaves the text alone -/
+def verbPrefix (verb : Char) : Option (List Char) :=
+  if verb = 'b' then some ['0', 'b']
+  else if verb = 'o' ∨ verb = 'O' then some ['0', 'o']
+  else if verb = 'd' then some []
+  else if verb = 'x' ∨ verb = 'X' then some ['0', 'x']
+  else none
+
+/-- an optional leading sign peeled off: (sign, rest) -/
+def splitSign : List Char → List Char × List Char
+  | c :: r => if c = '+' ∨ c = '-' then ([c], r) else ([], c :: r)
+  | [] => ([], [])
+
+/-- the zero-padding rule of verb `d`: drop the padding unless what follows is not a digit, then keep one `0` -/
+def dropPadding (t : List Char) : List Char :=
+  match trimZeros t with
+  | c :: r => if 48 ≤ c.toNat ∧ c.toNat ≤ 57 then c :: r else if t ≠ [] ∧ c :: r ≠ t then '0' :: c :: r else t
+  | [] => if t ≠ [] ∧ [] ≠ t then ['0'] else t
+
+/-- `scanText(text, verb)`: for the verbs `b`, `o`/`O`, `x`/`X` the sign is peeled off and the verb's base prefix is
+    inserted unless the text already starts with `0` and one of `bBoOxX`; for `d` zero padding is dropped; every other
+    verb leaves the text alone -/
+def scanText (text : List Char) (verb : Char) : List Char :=
+  match verbPrefix verb with
+  | none => text
+  | some pfx =>
+    let sp := splitSign text
+    if isBasePrefixed sp.2 then sp.1 ++ sp.2
+    else sp.1 ++ pfx ++ (if verb = 'd' then dropPadding sp.2 else sp.2)
+
+/-- `Uint128.Scan` / `Int128.Scan` on the token `tok` with the verb `verb` -/
+def U128.scan (tok : List Char) (verb : Char) : Option U128 := U128.fromString (scanText tok verb)
+def I128.scan (tok : List Char) (verb : Char) : Option I128 := I128.fromString (scanText tok verb)
+
 /-! ## value → text -/
 
 def digitChar (d : Nat) : Char := Char.ofNat (48 + d)
